@@ -134,10 +134,11 @@ def run_case(case):
         expl = _explain(case, ref, eq, I, B, kw, get_equivalent, merge_internal_net_and_equivalent_external_net,
                         select_subnet, pp)
     toks = toks + expl
-    if len(ref.xward):
-        E = set(case["split"]["E"])
-        where = sorted({"external" if b in E else "boundary" if b in set(B) else "internal" for b in ref.xward.bus.values})
-        toks += ["xward_at=" + w for w in where]
+    for tab in ("xward", "ward"):
+        if len(ref[tab]):
+            E = set(case["split"]["E"])
+            where = sorted({"external" if b in E else "boundary" if b in set(B) else "internal" for b in ref[tab].bus.values})
+            toks += ["%s_at=%s" % (tab, w) for w in where]
     for p in probs:
         clause = "bus_missing" if "problem" in p else "voltage"
         p = dict(p)
